@@ -423,6 +423,29 @@ class Case:
                                     "deposit_lp", "deposit_lp"]
         if any(pre_v[i].pos is not None for i in ids):
             menu += ["withdraw_lp"] * 5
+        if with_debt and rng.random() < 0.06:
+            # the liquidation entry point called directly on a vault that is at least 1.5x collateralised: only a vault below 1.5x
+            # may be liquidated, whoever asks
+            vid = rng.choice(with_debt)
+            v = pre_v[vid]
+            safe_v, _ = self.verdicts(v.coll, v.short, v.lp)
+            if safe_v == O.YES:
+                n_act = len(self.actions)
+                res = Dr.call_op(sm.liquidate, VaultKey(vid))
+                post_v, post_w = self.read()
+                mon.ev()
+                mon.hit("liquidate-called-on-safe-vault")
+                changed = post_w != pre_w or {i: x.key() for i, x in post_v.items()} != {i: x.key() for i, x in pre_v.items()}
+                if res.ok or changed or len(self.actions) != n_act:
+                    mon.violation(
+                        "squeeth", "liquidate", "safe-vault-liquidated", "direct-call" + ("/lp" if v.lp is not None else "/eth-only"),
+                        f"liquidate(vault {vid}) at {self.t} bar {self.bar} ({self.tag}) on a vault the rule calls safe (collateral "
+                        f"{float(v.coll)!r} ETH, short {float(v.short)!r}): {'accepted, returned ' + repr(res.ret) if res.ok else repr(res.exc)}; "
+                        f"vaults {'changed' if changed else 'unchanged'}, {len(self.actions) - n_act} new action records",
+                        {"case": self.c, "bar": self.bar, "trace": self.trace[-4:]})
+                    if changed:
+                        self.poisoned = True
+                return
         kind = rng.choice(menu)
         vid = None
         if kind not in ("open", "open_lp", "open_by_rate"):
